@@ -125,7 +125,7 @@ pub fn exec_present(input: &Value) -> Value {
         }
         Ok(h)
     }));
-    let holder = match holder {
+    let mut holder = match holder {
         Err(_) => return json!({"presentation": {"o": "panic"}, "builds": []}),
         Ok(Err(_)) => return json!({"presentation": {"o": "err"}, "builds": []}),
         Ok(Ok(h)) => h,
@@ -145,7 +145,15 @@ pub fn exec_present(input: &Value) -> Value {
     };
     let kb_opt: Option<&Validation> = kbval.as_ref();
     let mut outs = Vec::new();
-    for _ in 0..builds {
+    for i in 0..builds {
+        if i > 0 {
+            // "redact_after"[i-1]: paths redacted on the same Holder between build i-1 and build i
+            if let Some(extra) = input["redact_after"].get(i - 1).and_then(|v| v.as_array()) {
+                for p in extra {
+                    let _ = holder.redact(p.as_str().unwrap_or(""));
+                }
+            }
+        }
         let b = catch_unwind(AssertUnwindSafe(|| holder.build()));
         match b {
             Err(_) => outs.push(json!({"build": {"o": "panic"}})),
